@@ -43,9 +43,20 @@ func VerifC03() {
 	}
 	var rows []string
 	mMarkdownRows(root, 0, &rows)
-	op := verifChoose("op", 0, 4)
+	op := verifChoose("op", 0, 5)
 	verifContext("C03.pair")
 	switch op {
+	case 5: // Output with the dry-run option (0..1 opaque extension): the same report from both families
+		var exts []string
+		if verifFlag("ext") {
+			exts = append(exts, verifStr("ext"))
+		}
+		w1, w2 := newVerifWriter(), newVerifWriter()
+		e1 := OutputFromRoot(w1, root.real, WithDryRun(), WithFileExtensions(exts))
+		e2 := OutputFromMarkdown(w2, &verifReader{lines: rows}, WithDryRun(), WithFileExtensions(exts))
+		verifAssert(e1 == nil && e2 == nil, "C03.dryrun.nil")
+		verifObserve("dryrun", w1.out)
+		verifAssert(w1.out == w2.out, "C03.dryrun")
 	case 4: // a writer that refuses write number j: both families report it (or both finish), text and encodings
 		j := int(verifChoose("failAt", 0, uint(len(nodes))))
 		var opts []Option
